@@ -577,6 +577,14 @@ def data_loss_rules(repo: Repo, rep, R_full: str, R_single: str):
         rep.saw(fi)
         n += 1
         loops = [l for l in ast.walk(fi.node) if isinstance(l, ast.For) and "dataloader" in dump(l.iter)]
+        if not loops:
+            # a loop over a stored attribute (an iterator kept from an earlier call) yields nothing once it is exhausted
+            stored = [l for l in ast.walk(fi.node) if isinstance(l, ast.For) and isinstance(l.iter, ast.Attribute) and dump(l.iter.value) == "self"
+                      and any("_compute_dist" in dump(c) or "batch" in dump(l.target) for c in ast.walk(l))]
+            if stored:
+                rep.violation(R_full, fi.site(stored[0]), fi.fq, "every evaluation on the full data set walks a fresh pass over self.dataloader",
+                              f"loops over the stored `{dump(stored[0].iter)}` (exhausted after the first evaluation)", f"full-data loop over stored {dump(stored[0].iter)}")
+                continue
         if len(loops) != 1:
             rep.undecided(R_full, fi.site(), fi.fq, "one loop over self.dataloader", f"{len(loops)} loops")
             continue
@@ -804,7 +812,33 @@ def r3c_unique_coverage(repo: Repo, rep):
               "window bounds: " + dump(bounds["branch"][0])[:60] + " .. " + dump(bounds["branch"][1])[:60])
 
 
+def r5_loader_hands_sizes_on(repo: Repo, rep):
+    R = rep.rule("R-C16-5", "DeepONetDataLoader hands the requested batch sizes to its data set unchanged: 'negative = everything' is resolved by the data set, "
+                 "which knows which axis of its tensors is meant", floor=1,
+                 why="len(trunk_data) is the number of functions in the per-function layout: a trunk batch size resolved with it cuts the locations short")
+    ci = repo.cls(f"{DDL}.DeepONetDataLoader")
+    init = ci.methods.get("__init__")
+    if init is None:
+        raise AnalysisError("DeepONetDataLoader.__init__ vanished")
+    rep.saw(init)
+    sizes = [p for p in init.params if p.endswith("batch_size")]
+    rebound = sorted({t.id for n in ast.walk(init.node) if isinstance(n, (ast.Assign, ast.AugAssign)) for t in (n.targets if isinstance(n, ast.Assign) else [n.target])
+                      if isinstance(t, ast.Name) and t.id in sizes})
+    passed = []
+    for c in ast.walk(init.node):
+        if isinstance(c, ast.Call) and (attr_chain(c.func) or "").startswith("DeepONetDataset"):
+            for k in c.keywords:
+                if k.arg in sizes:
+                    passed.append((k.arg, dump(k.value)))
+            for a in c.args:
+                if isinstance(a, ast.Name) and a.id in sizes:
+                    passed.append((a.id, a.id))
+    ok = not rebound and passed and all(a == v for a, v in passed) and {a for a, v in passed} >= set(sizes)
+    rep.check(R, ok, init.site(), init.fq, "batch sizes are forwarded as given", f"re-bound: {rebound}; forwarded: {sorted(set(passed))[:4]}", f"batch sizes re-bound {rebound}")
+
+
 def run(repo: Repo, rep):
+    r5_loader_hands_sizes_on(repo, rep)
     r3c_unique_coverage(repo, rep)
     r3b_shared_len(repo, rep)
     r1_points_dataset(repo, rep)
